@@ -112,10 +112,10 @@ _PARTIAL_SCHED = (" PARTIAL: theorems are about the sequential model (one event 
                   "outside the properties' quantifier, the store turns them away and the oracle leaves events naming them open).")
 _REFINE = (" REFINEMENT (Proofs/BrokerRefine*.lean, `Broker_refines_spec`): one theorem for all histories - under the abstraction relation R (trie entries = "
            "the reference broker's held list, retained trie = its retained messages, live sessions/connections = its connection records incl. will, "
-           "CleanSession, open inbound QoS 2 exchanges and Session.topics, stored CleanSession=0 sessions = its stored map, no overlap) every event admitted by the "
+           "CleanSession, open inbound QoS 2 exchanges and Session.topics, stored CleanSession=0 sessions = its stored map, at most one live connection per client identifier) every event admitted by the "
            "decidable side condition okEv (topic/filter arguments `good` - no empty level: finding B3, no leading '$' -; PUBLISH topic a valid name, QoS <= 2, "
-           "identifier unless QoS 0; a first packet arrives on a connection number that is not live and below cbBase, an accepted CONNECT with a supplied client id "
-           "meets no live connection with that id - the specification leaves everything open after such an overlap - and its will topic is a good valid name; "
+           "identifier unless QoS 0; a first packet arrives on a connection number that is not live and below cbBase, the will topic of an accepted CONNECT is a good valid name - a CONNECT "
+           "with the client identifier of a live connection is admitted: it takes that connection over on both sides (MQTT-3.1.4-2; finding G5 repaired), `stop` / `endConn` before the handshake; "
            "in-process callbacks have ids >= cbBase) takes related states to related states and the model's output lies in the set the reference broker's output "
            "describes (`Accepts`, Spec/BrokerAccepts.lean: the Lean counterpart of the differential oracle broker_oracle/match_group, never weaker); CONNECT of a "
            "resumed session and connection end (will, unsubscribe-all, stored session) included; non-vacuity: a 17-event history with two clients, wildcard "
@@ -150,13 +150,13 @@ CLAIMS['C08'] = dict(category='proof', ref='5 Core E, 8 C08', text=_BROKER_TEXT 
     "C08_refines_reference: after any admitted history the retained trie is the reference broker's store and the deliveries after a SUBACK are exactly (as a multiset, DUP/id free) the messages it demands, RETAIN=1.") + _REFINE + _PARTIAL_SCHED +
     " Byte identity of payloads across ring reuse and retained updates concurrent to subscriptions are memory/race facts outside the pure model (correspondence / C18).")
 CLAIMS['C09'] = dict(category='proof', ref='5 Core E, 8 C09', text=_BROKER_TEXT % (
-    "Theorems (19): DISCONNECT emits only the close, nothing is published, later events for the connection are silent (C09_disconnect_no_will, "
+    "Theorems (20): DISCONNECT emits only the close, nothing is published, later events for the connection are silent (C09_disconnect_no_will, "
     "C09_disconnect_after_history); an abnormal end emits the close followed by exactly the fan-out of the will, once (C09_will_published_once, "
     "C09_no_will_no_publish, C09_stopBase); after an accepted CONNECT, fresh or resumed, the session's will is THIS CONNECT's (topic, payload, QoS, "
     "retain) (C09_will_is_current_connect, C09_initWill_fields, C09_current_will_published, C09_will_of_own_connect over quiet histories); no other event "
     "reads a will (C09_only_stop_reads_will, C09_stop_reads_will_only_with_flag, C09_will_kept_step); invariant (C09_inv). "
     "C09_refines_reference: after any admitted history DISCONNECT publishes nothing and any other end publishes exactly the will of the connection's own CONNECT (the reference broker's record), accepted by its fan-out.") + _REFINE + _PARTIAL_SCHED +
-    " Keep-alive expiry as a cause is an event of the model; its timing is C19. With two live connections under one client id the will statement is false of the code (hypothesis `quiet`).")
+    " Keep-alive expiry as a cause is an event of the model; its timing is C19. A CONNECT with the client identifier of a live connection ends that connection (take-over, MQTT-3.1.4-2) and publishes ITS will before the handshake: C09_only_stop_reads_will excludes exactly these first packets (`mayStop`), `quiet` histories treat such a CONNECT as an end of the connection (C09_affectsWill_iff), and for all admitted histories C09_take_over_is_an_end says that such a CONNECT emits exactly the outputs of the end of that connection (`.close`) followed by its CONNACK, in the model and in the reference broker, so C09_refines_reference applies to the connection taken over (C10_refines_reference: the sessions side).")
 CLAIMS['C10'] = dict(category='proof', ref='5 Core E, 8 C10', text=_BROKER_TEXT % (
     "Theorems (17): SessionPresent=1 iff CleanSession=0, non-empty id and the store holds a session kept from a CleanSession=0 connection "
     "(C10_session_present); a clean CONNECT starts from a fresh empty session, tries unchanged (C10_clean_starts_empty); after a clean session ends the "
@@ -164,8 +164,8 @@ CLAIMS['C10'] = dict(category='proof', ref='5 Core E, 8 C10', text=_BROKER_TEXT 
     "topic store is the re-subscription of the kept list and every kept entry answers the subscriber lookup for matching names (C10_resume_resubscribes, "
     "C10_resume_trie via C06 smatch_char); a CONNECT under id X changes neither store entry nor session of Y != X (C10_keyed_by_id); trie well-formed in "
     "every reachable state (C10_trie_wf_reachable); regenerated constants = specification's (C10_facts). "
-    "C10_refines_reference: after any admitted history an accepted CONNECT is answered CONNACK 0 with SessionPresent = (CleanSession=0 and the reference broker stores a session for the id), and the trie then holds the reference broker's held list incl. the resumed subscriptions.") + _REFINE + _PARTIAL_SCHED +
-    " Overlapping client ids (two live connections, no take-over) are left open by the specification from the overlapping CONNECT on.")
+    "C10_refines_reference: after any admitted history an accepted CONNECT first takes over the live connection of its client identifier, if any (there is at most one; model `stop` = reference `endConn`, not graceful), then is answered CONNACK 0 with SessionPresent = (CleanSession=0 and the reference broker stores a session for the id after the take-over: iff the connection taken over had CleanSession=0, or an older session was stored), and the trie then holds the reference broker's held list - nothing of the connection taken over, the resumed subscriptions for the new one.") + _REFINE + _PARTIAL_SCHED +
+    " Two live connections under one client identifier no longer exist: take-over (finding G5, repaired; the regression witness - the older connection ending later must not take the newer one's subscription with it - is replayed on every run).")
 CLAIMS['C11'] = dict(category='proof', ref='5 Core E, 8 C11', text=_BROKER_TEXT % (
     "Theorems (15): CONNACK 0 is emitted exactly when the reference refusal list is empty; otherwise the state is unchanged and the answer is a silent close "
     "with 'malformed' among the reasons or a code k!=0 with k among them (C11_table, C11_accept_iff, C11_checks_are_spec); precedence of the code's checks "
@@ -277,8 +277,8 @@ CLAIMS['C18'] = dict(category='other', ref='5 Core G, 8 C18',
          "Ackqueue, Session, MemProvider, Server.svcs, service.conn/in/out/outtmp, the traffic counters, package-level variables written "
          "after init): every `recv.field` access with the mutexes lexically held, helper functions judged by the meet over all their call "
          "sites, references copied out of guarded structs. C18_table_disciplined_except_findings (by decide): every row obeys the "
-         "hand-written expectation guardOf EXCEPT the rows of the open finding "
-         "G5 (Session.Cmsg/Will read by package service without Session.mu while a resumed session rewrites them); a removed lock, an access "
+         "hand-written expectation guardOf EXCEPT the three rows of the ordering class O-teardown "
+         "(Session.Cmsg/Will accessed without Session.mu by the processor and by stop() of the ONE connection that serves the session: ordered by stop()'s wgStopped.Wait - join - and, against Session.Update/Init of the client's next connection, by the session take-over - `stopped` channel received under Server.connectMu before getSession, goroutines forked afterwards; these rows were the open finding G5 until the take-over was implemented, no finding is open); a removed lock, an access "
          "moved out of its critical section or a new unguarded accessor breaks it. C18_escapes_recorded: the only reference leaving a "
          "critical section is the recorded one (assumption A-acked: Acked returns its internal slice). "
          "C18_conforming_trace_race_free: a trace generated by the table is race-free on every covered location class; "
@@ -293,7 +293,7 @@ CLAIMS['C18'] = dict(category='other', ref='5 Core G, 8 C18',
          "reflection, closures by lexical position, trie-node ownership assumed); the check decides 'a lock was removed / an access left its "
          "lock / a new unguarded accessor appeared', not arbitrary races. The Go race detector drives the real broker concurrently (raw "
          "clients, session take-over, library clients, Server.Close, in-process Publish/Subscribe) to validate the table on the unchanged "
-         "tree - every report must belong to an open finding - and as the search when the table theorem breaks; it is never the proof.",
+         "tree - every report must belong to an open finding, and there is none: a report with the signature of a repaired finding, G5 included, is a regression - and as the search when the table theorem breaks; it is never the proof.",
     technique="Lean 4 proof over abstract synchronisation traces + decidable check of a regenerated (go/ast) access table; Go race detector as search and table validation",
     note="Trusted: Lean kernel (axioms propext/Classical.choice/Quot.sound only); the lexical extractor extract/facts_locks.go IS the "
          "translator from the program to the table and is not verified; the hand-written expectation table and exception list in "
